@@ -423,7 +423,8 @@ Lemma import_signal_e : forall es env st0 st mpos msgid id o recs s,
   exists s' st', import_signal env st mpos msgid id (dsig_e es o recs s) = Ok (place s' 0 None [], st') /\
     Inv st' /\ ProofsEnum.st_le st st' /\ Rsig es st' id s s' /\
     s_name s' = clear (s_name s) /\ s_rel s' = s_rel s /\ s_parent s' = None /\ s_groups s' = [] /\
-    sig_size (is_enums st') s' = sig_size es s /\ ProofsLayout.sig_refs_ok st' s'.
+    sig_size (is_enums st') s' = sig_size es s /\ ProofsLayout.sig_refs_ok st' s' /\
+    is_sigmap st' = ((msgid, clear (s_name s)), (mpos, id)) :: is_sigmap st.
 Proof.
   intros es env st0 st mpos msgid id o recs s Hok Hwf [Hd Henv] HI Hle.
   pose proof Hok as [Hp [Hg [Hv [Ht [Ha [Hr Hk]]]]]].
@@ -528,6 +529,17 @@ Proof.
   intros es o recs s H. rewrite <- (dsig_start o recs s H). unfold dsig_e. destruct (s_kind s); reflexivity.
 Qed.
 
+Lemma lookup_key_head : forall {V} (k : key) (v : V) l, lookup key_eqb k ((k, v) :: l) = Some v.
+Proof. intros V k v l. cbn [lookup]. rewrite (proj2 (key_eqb_eq k k) eq_refl). reflexivity. Qed.
+Lemma lookup_key_skip : forall {V} (k k' : key) (v : V) l, k <> k' -> lookup key_eqb k ((k', v) :: l) = lookup key_eqb k l.
+Proof.
+  intros V k k' v l H. cbn [lookup]. destruct (key_eqb k k') eqn:E; [|reflexivity].
+  apply key_eqb_eq in E. contradiction.
+Qed.
+
+Lemma NoDup_app_r : forall {A} (a b : list A), NoDup (a ++ b) -> NoDup b.
+Proof. intros A a b. induction a as [|x r IH]; cbn; [auto|]. intros H. inversion H; auto. Qed.
+
 Lemma e_import_fold : forall es env st0 mpos msgid msize o recs l i st done from,
   (forall s, In s l -> env_sig es env st0 msgid s /\ enum_wf (e_of es s)) ->
   Forall (esig_ok es) l -> layout_e es from (msize * 8) l -> 0 <= from -> msize <= 8 ->
@@ -541,17 +553,20 @@ Lemma e_import_fold : forall es env st0 mpos msgid msize o recs l i st done from
        do sg' <- msg_insert (is_enums st2) msize sg2 (s, []) (get_start_bit ds); Ok (st2, sg')))
     (index_from i (map (dsig_e es o recs) l)) (Ok (st, done))
   = Ok (st', done ++ sigs') /\ Inv st' /\ ProofsEnum.st_le st st' /\
-    Forall2 (fun p s' => Rsig es st' (fst p) (snd p) s') (index_from i l) sigs'.
+    Forall2 (fun p s' => Rsig es st' (fst p) (snd p) s') (index_from i l) sigs' /\
+    (forall j s, In (j, s) (index_from i l) -> lookup key_eqb (msgid, clear (s_name s)) (is_sigmap st') = Some (mpos, j)) /\
+    (forall k, (forall s, In s l -> k <> (msgid, clear (s_name s))) -> lookup key_eqb k (is_sigmap st') = lookup key_eqb k (is_sigmap st)).
 Proof.
   intros es env st0 mpos msgid msize o recs l. induction l as [|s r IH]; intros i st done from Henv Hp Hl H0 Hm Hrv0 HI Hle Hd Hn.
-  - cbn. exists st, []. rewrite app_nil_r. split; [reflexivity|]. split; [assumption|]. split; [apply ProofsEnum.st_le_refl|constructor].
+  - cbn. exists st, []. rewrite app_nil_r. split; [reflexivity|]. split; [assumption|]. split; [apply ProofsEnum.st_le_refl|].
+    split; [constructor|]. split; [intros j s []|auto].
   - inversion Hp as [|? ? Hps Hpr]; subst. cbn [layout_e] in Hl. destruct Hl as [L1 [L2 L3]].
     destruct (Henv s (or_introl eq_refl)) as [Hes Hwf].
     pose proof (sig_size_pos es s Hps) as Hpos.
     pose proof Hps as [_ [_ [_ [_ [_ [Hrel _]]]]]].
     cbn [map index_from fold_left bind].
     destruct (import_signal_e es env st0 st mpos msgid i o recs s Hps Hwf Hes HI Hle)
-      as [s' [st1 [E1 [HI1 [Hle1 [HR [Hnm [Hrl [Hpa [Hgr [Hsz Hrf]]]]]]]]]]].
+      as [s' [st1 [E1 [HI1 [Hle1 [HR [Hnm [Hrl [Hpa [Hgr [Hsz [Hrf Hsm]]]]]]]]]]]].
     rewrite E1. cbn [bind].
     rewrite dsig_e_start by lia.
     assert (Hd1 : done_ok st1 done from) by (apply (done_ok_mono st st1 done from from Hle1 (Z.le_refl _) Hd)).
@@ -565,7 +580,10 @@ Proof.
     assert (Hplace : place (place s' 0 None []) (s_rel s) None [] = s').
     { destruct s'. cbn in *. subst. reflexivity. }
     rewrite Hplace.
-    destruct (IH (i + 1) st1 (done ++ [s']) (s_rel s + sig_size es s)) as [st' [sigs' [F1 [F2 [F3 F4]]]]]; try assumption; try lia.
+    assert (Hfresh : forall x, In x r -> (msgid, clear (s_name s)) <> (msgid, clear (s_name x))).
+    { intros x Hx Heq. inversion Heq as [Hq]. cbn [map] in Hn. apply NoDup_app_r in Hn. inversion Hn as [|? ? Hni _]; subst.
+      apply Hni. rewrite Hq. apply (in_map (fun s => clear (s_name s))). assumption. }
+    destruct (IH (i + 1) st1 (done ++ [s']) (s_rel s + sig_size es s)) as [st' [sigs' [F1 [F2 [F3 [F4 [F5 F6]]]]]]]; try assumption; try lia.
     + intros x Hx. apply Henv. right. assumption.
     + eapply ProofsEnum.st_le_trans; [exact Hrv0|exact Hle|exact Hle1].
     + intros d Hin. apply in_app_or in Hin. destruct Hin as [Hin|[Hin|[]]].
@@ -574,7 +592,12 @@ Proof.
     + rewrite map_app. cbn [map]. rewrite Hnm, <- app_assoc. exact Hn.
     + exists st', (s' :: sigs'). split; [rewrite F1, <- app_assoc; reflexivity|].
       split; [assumption|]. split; [eapply ProofsEnum.st_le_trans; [exact (proj1 HI)|exact Hle1|exact F3]|].
-      constructor; [|assumption]. cbn [fst snd]. eapply Rsig_mono; eauto.
+      split; [constructor; [|assumption]; cbn [fst snd]; eapply Rsig_mono; eauto|]. split.
+      * intros j x [Hjx|Hjx].
+        -- inversion Hjx; subst j x. rewrite (F6 _ Hfresh), Hsm. apply lookup_key_head.
+        -- apply F5. assumption.
+      * intros k Hk. rewrite F6 by (intros x Hx; apply Hk; right; assumption). rewrite Hsm.
+        apply lookup_key_skip. apply Hk. left. reflexivity.
 Qed.
 
 (* ---------------- messages ---------------- *)
@@ -628,7 +651,11 @@ Lemma import_message_signals_e : forall es env st0 st mpos m names,
   ProofsEnum.refs_valid st0 -> Inv st -> ProofsEnum.st_le st0 st ->
   exists st' sigs', import_message_signals env st mpos (dmsg_e es m) = Ok (st', sigs') /\
     Inv st' /\ ProofsEnum.st_le st st' /\
-    Forall2 (fun p s' => Rsig es st' (fst p) (snd p) s') (index_from 0 (m_signals m)) sigs'.
+    Forall2 (fun p s' => Rsig es st' (fst p) (snd p) s') (index_from 0 (m_signals m)) sigs' /\
+    (forall j s, In (j, s) (index_from 0 (m_signals m)) ->
+       lookup key_eqb (u32 (m_canid m), clear (s_name s)) (is_sigmap st') = Some (mpos, j)) /\
+    (forall k, (forall s, In s (m_signals m) -> k <> (u32 (m_canid m), clear (s_name s))) ->
+       lookup key_eqb k (is_sigmap st') = lookup key_eqb k (is_sigmap st)).
 Proof.
   intros es env st0 st mpos m names [Ha [Hc [Hdl [Hsd [Hst [Hid [Hsz [Hps [Hlay [Hnn _]]]]]]]]]] [_ Henv] Hrv0 HI Hle.
   unfold import_message_signals. cbn [dm_signals dm_id dm_size dmsg_e].
@@ -657,13 +684,17 @@ Lemma import_message_e : forall es env st0 raw_names nodes st done m,
   ~ In (m_canid m) (map m_canid done) ->
   ~ In (clear (m_sender m), clear (m_name m)) (map (fun x => (m_sender x, m_name x)) done) ->
   exists st' m', import_message env (st, done) nodes (dmsg_e es m) = Ok (st', done ++ [m']) /\
-    Inv st' /\ ProofsEnum.st_le st st' /\ Rmsg es st' m m'.
+    Inv st' /\ ProofsEnum.st_le st st' /\ Rmsg es st' m m' /\
+    (forall j s, In (j, s) (index_from 0 (m_signals m)) ->
+       lookup key_eqb (u32 (m_canid m), clear (s_name s)) (is_sigmap st') = Some (length done, j)) /\
+    (forall k, (forall s, In s (m_signals m) -> k <> (u32 (m_canid m), clear (s_name s))) ->
+       lookup key_eqb k (is_sigmap st') = lookup key_eqb k (is_sigmap st)).
 Proof.
   intros es env st0 raw_names nodes st done m Hpm Henv Hrv0 HI Hle Hnodes Hnd Hcan Hpair.
   pose proof Hpm as [Ha [Hc [Hdl [Hsd [Hst [Hid [Hsz [Hps [Hlay [Hnn [Hsn [Hrc [Hrn Hre]]]]]]]]]]]]].
-  destruct (import_message_signals_e es env st0 st (length done) m raw_names Hpm Henv Hrv0 HI Hle) as [st' [sigs' [Hsig [HI' [Hle' HR]]]]].
+  destruct (import_message_signals_e es env st0 st (length done) m raw_names Hpm Henv Hrv0 HI Hle) as [st' [sigs' [Hsig [HI' [Hle' [HR [HL1 HL2]]]]]]].
   destruct Henv as [Hmd _].
-  exists st'. eexists. split; [|split; [exact HI'|split; [exact Hle'|exists sigs'; split; [reflexivity|exact HR]]]].
+  exists st'. eexists. split; [|split; [exact HI'|split; [exact Hle'|split; [exists sigs'; split; [reflexivity|exact HR]|split; [exact HL1|exact HL2]]]]].
   unfold import_message. cbv zeta.
   cbn [dm_signals dm_id dm_size dm_tx dm_name dmsg_e].
   unfold desc_of in Hmd. rewrite Hmd.
@@ -724,24 +755,40 @@ Lemma import_messages_e : forall es env st0 raw_names nodes l st done,
   NoDup (map (fun x => (m_sender x, m_name x)) done ++ map (fun m => (clear (m_sender m), clear (m_name m))) l) ->
   exists st' msgs',
     fold_left (fun acc dm => do a <- acc; import_message env a nodes dm) (map (dmsg_e es) l) (Ok (st, done))
-    = Ok (st', done ++ msgs') /\ Inv st' /\ ProofsEnum.st_le st st' /\ Forall2 (Rmsg es st') l msgs'.
+    = Ok (st', done ++ msgs') /\ Inv st' /\ ProofsEnum.st_le st st' /\ Forall2 (Rmsg es st') l msgs' /\
+    (forall q m, nth_error l q = Some m -> forall j s, In (j, s) (index_from 0 (m_signals m)) ->
+       lookup key_eqb (u32 (m_canid m), clear (s_name s)) (is_sigmap st') = Some ((length done + q)%nat, j)) /\
+    (forall k, (forall m s, In m l -> In s (m_signals m) -> k <> (u32 (m_canid m), clear (s_name s))) ->
+       lookup key_eqb k (is_sigmap st') = lookup key_eqb k (is_sigmap st)).
 Proof.
   intros es env st0 raw_names nodes l. induction l as [|m r IH]; intros st done Hp Henv Hrv0 HI Hle Hn Hd Hc Hq.
-  - cbn. exists st, []. rewrite app_nil_r. split; [reflexivity|]. split; [assumption|]. split; [apply ProofsEnum.st_le_refl|constructor].
+  - cbn. exists st, []. rewrite app_nil_r. split; [reflexivity|]. split; [assumption|]. split; [apply ProofsEnum.st_le_refl|].
+    split; [constructor|]. split; [intros q m H; destruct q; discriminate H|auto].
   - inversion Hp as [|? ? Hpm Hpr]; subst. cbn [map fold_left bind].
     destruct (import_message_e es env st0 raw_names nodes st done m Hpm (Henv m (or_introl eq_refl)) Hrv0 HI Hle Hn Hd)
-      as [st1 [m' [E1 [HI1 [Hle1 HR]]]]].
+      as [st1 [m' [E1 [HI1 [Hle1 [HR [HL1 HL2]]]]]]].
     + cbn [map] in Hc. apply NoDup_remove_2 in Hc. intros Hin. apply Hc. apply in_or_app. left. assumption.
     + cbn [map] in Hq. apply NoDup_remove_2 in Hq. intros Hin. apply Hq. apply in_or_app. left. assumption.
     + rewrite E1. pose proof HR as [sg [Hm' _]].
-      destruct (IH st1 (done ++ [m'])) as [st' [msgs' [F1 [F2 [F3 F4]]]]]; try assumption.
+      assert (Hkeys : forall x s s', In x r -> (u32 (m_canid m), clear (s_name s)) <> (u32 (m_canid x), clear (s_name s'))).
+      { intros x s s' Hx Heq. inversion Heq as [[Hq1 Hq2]].
+        rewrite Forall_forall in Hpr. destruct Hpm as [_ [_ [_ [_ [_ [Hid _]]]]]]. destruct (Hpr x Hx) as [_ [_ [_ [_ [_ [Hidx _]]]]]].
+        rewrite !u32_id in Hq1 by assumption.
+        cbn [map] in Hc. apply NoDup_app_r in Hc. inversion Hc as [|? ? Hni _]; subst. apply Hni. rewrite Hq1. apply in_map. assumption. }
+      destruct (IH st1 (done ++ [m'])) as [st' [msgs' [F1 [F2 [F3 [F4 [F5 F6]]]]]]]; try assumption.
       * intros x Hx. apply Henv. right. assumption.
       * eapply ProofsEnum.st_le_trans; [exact Hrv0|exact Hle|exact Hle1].
       * rewrite map_app. cbn [map]. rewrite Hm'. cbn [m_canid]. rewrite <- app_assoc. exact Hc.
       * rewrite map_app. cbn [map]. rewrite Hm'. cbn [m_sender m_name]. rewrite <- app_assoc. exact Hq.
       * exists st', (m' :: msgs'). split; [rewrite F1, <- app_assoc; reflexivity|]. split; [assumption|].
         split; [eapply ProofsEnum.st_le_trans; [exact (proj1 HI)|exact Hle1|exact F3]|].
-        constructor; [eapply Rmsg_mono; eauto|assumption].
+        split; [constructor; [eapply Rmsg_mono; eauto|assumption]|]. split.
+        -- intros q x Hnth j s Hjs. destruct q as [|q]; cbn [nth_error] in Hnth.
+           ++ inversion Hnth; subst x. rewrite F6 by (intros y t Hy _; apply Hkeys; assumption).
+              rewrite (HL1 j s Hjs). rewrite Nat.add_0_r. reflexivity.
+           ++ rewrite (F5 q x Hnth j s Hjs). rewrite app_length. cbn [length]. f_equal. f_equal. lia.
+        -- intros k Hk. rewrite F6 by (intros y t Hy Ht; apply Hk; [right; assumption|assumption]).
+           apply HL2. intros t Ht. apply Hk; [left; reflexivity|assumption].
 Qed.
 
 (* ---------------- the VAL_ lines of the exported document resolve to the signals' values ---------------- *)
@@ -927,7 +974,7 @@ Proof.
     split; [intros r []|]. split; intros i Hi; cbn [is_enums st0] in *; [apply (Hall i Hi)|intros _; apply (Hall i Hi)]. }
   assert (Hwf : forall x, enum_wf (e_of (b_enums b) x)) by (intros x; apply enum_wf_nth; assumption).
   destruct (import_messages_e (b_enums b) env st0 (map n_name (b_nodes b)) nodes' (b_messages b) st0 [])
-    as [st' [msgs' [F1 [F2 [F3 F4]]]]]; try assumption.
+    as [st' [msgs' [F1 [F2 [F3 [F4 _]]]]]]; try assumption.
   - intros m Hin. split.
     + cbn [ie_msg_desc env]. apply (msg_desc_ok b Hkb). assumption.
     + intros s Hs. split; [|apply Hwf]. apply (env_sig_of_doc b (length reg) reg (reg ++ new) se' md nd Hb V1 m s Hin Hs).
@@ -958,6 +1005,64 @@ Proof.
       unfold proj_node. cbn [n_name n_desc n_attrs]. rewrite Hna, clear_spaces_idem. reflexivity.
     + f_equal. eapply (Forall2_map_eq (Rmsg (b_enums b) st')); [exact F4|].
       intros m m' Hin HR. rewrite Forall_forall in Hm. eapply proj_message_e; [apply Hm; assumption|intros; apply Hwf|exact HR].
+Qed.
+
+(* ---------------- the structural part of the import, for any document that carries the exported
+   structure of an ebus (used by RoundTripAttr with non-empty attribute sections) ---------------- *)
+Definition finish (b1 : bus) : result bus :=
+  if existsb (fun m => String.eqb (m_sender m) dummy_node) (b_messages b1) then Ok b1
+  else Ok (set_b_nodes b1 (filter (fun n => negb (String.eqb (n_name n) dummy_node)) (b_nodes b1))).
+
+Lemma import_struct : forall b L d, ebus b ->
+  d_filename d = b_name b -> d_nodes d = map (fun n => clear (n_name n)) (b_nodes b) ->
+  d_valtables d = map (table_of (b_enums b)) L -> d_messages d = map (dmsg_e (b_enums b)) (b_messages b) ->
+  d_comments d = doc_cms b -> d_valencs d = bus_vencs b -> d_extmuxes d = [] ->
+  exists st' msgs',
+    import d = (do b1 <- import_attributes (is_sigmap st') d
+                           (mkbus (b_name b) (b_desc b) []
+                                  (mk_nodes 0 (b_nodes b) ++ [mknode dummy_node 1024 EmptyString []]) (is_enums st') msgs');
+                finish b1) /\
+    Forall2 (Rmsg (b_enums b) st') (b_messages b) msgs' /\
+    (forall q m, nth_error (b_messages b) q = Some m -> forall j s, In (j, s) (index_from 0 (m_signals m)) ->
+       lookup key_eqb (u32 (m_canid m), clear (s_name s)) (is_sigmap st') = Some (q, j)).
+Proof.
+  intros b L d Hb D1 D2 D3 D4 D5 D6 D7. pose proof Hb as [Ha [Hn [Hnn [Hdm [Hlen [Hm [Hcan [Hpair [Hg Hes]]]]]]]]].
+  pose proof (ebus_keyed b Hb) as Hkb.
+  unfold import. rewrite D1, D2, D3, D4, D5, D6, D7.
+  rewrite import_comments_spec, (gdesc_doc b Hkb).
+  destruct (tables_ok (b_enums b) L [] Hes) as [reg [T1 T2]]. cbn [app] in T1. rewrite T1. cbn [bind].
+  destruct (valencs_ok (length reg) (bus_vencs b) reg []) as [new [se' [V1 V2]]].
+  { apply Forall_forall. intros ve Hin. apply in_bus_vencs in Hin. destruct Hin as [m [s [_ [_ [_ ->]]]]].
+    cbn [ve_values]. apply evals_ok. apply enum_wf_nth. assumption. }
+  rewrite V1. cbn [bind fst snd import_ext_muxes fold_left].
+  rewrite import_nodes_ok; [|assumption|assumption|assumption|intros n Hin; apply (node_desc_ok b Hkb); assumption].
+  cbn [bind].
+  set (nd := rev (npairs (doc_cms b))). set (md := rev (mpairs (doc_cms b))). set (sd := rev (spairs (doc_cms b))).
+  set (st0 := mkistate (reg ++ new) [] []).
+  set (nodes' := mk_nodes 0 (b_nodes b) ++ [mknode dummy_node 1024 EmptyString []]).
+  assert (Hnames' : map n_name nodes' = map (fun n => clear (n_name n)) (b_nodes b) ++ [dummy_node]).
+  { unfold nodes'. rewrite map_app, mk_nodes_names. reflexivity. }
+  assert (HI0 : Inv st0).
+  { assert (Hall : forall i, 0 <= i < Z.of_nat (length (reg ++ new)) -> fresh (nth_enum (reg ++ new) i)).
+    { intros i Hi. assert (HF : Forall fresh (reg ++ new)) by (apply Forall_app; split; assumption).
+      rewrite Forall_forall in HF. apply HF. unfold nth_enum. apply nth_In. lia. }
+    split; [intros r []|]. split; intros i Hi; cbn [is_enums st0] in *; [apply (Hall i Hi)|intros _; apply (Hall i Hi)]. }
+  assert (Hwf : forall x, enum_wf (e_of (b_enums b) x)) by (intros x; apply enum_wf_nth; assumption).
+  destruct (import_messages_e (b_enums b) (mkienv nd md sd se' []) st0 (map n_name (b_nodes b)) nodes' (b_messages b) st0 [])
+    as [st' [msgs' [F1 [F2 [F3 [F4 [F5 F6]]]]]]]; try assumption.
+  - intros m Hin. split.
+    + cbn [ie_msg_desc]. apply (msg_desc_ok b Hkb). assumption.
+    + intros s Hs. split; [|apply Hwf]. apply (env_sig_of_doc b (length reg) reg (reg ++ new) se' md nd Hb V1 m s Hin Hs).
+  - intros r [].
+  - apply ProofsEnum.st_le_refl.
+  - intros r Hr. rewrite Hnames'. apply in_or_app. left. apply in_map_iff in Hr. destruct Hr as [n [Hr Hin]]. subst r.
+    apply in_map_iff. exists n. auto.
+  - intros r Hr Heq. apply Hdm. apply in_map_iff in Hr. destruct Hr as [n [Hr Hin]]. subst r.
+    rewrite <- Heq. apply in_map_iff. exists n. auto.
+  - cbn [app] in F1. exists st', msgs'. split; [|split; [exact F4|]].
+    + match goal with |- bind ?x ?k = _ => replace x with (@Ok (istate * list message) (st', msgs')) by (symmetry; exact F1) end.
+      cbn [bind]. reflexivity.
+    + intros q m Hq j s Hjs. rewrite (F5 q m Hq j s Hjs). reflexivity.
 Qed.
 
 (* ------------------------------------------------------------------------------------------
